@@ -236,3 +236,115 @@ func verOf(v interface{}) (int, bool) {
 	}
 	return 0, false
 }
+
+// stopBacklogCase: worker groups are independent. A first group (built-in map cache) is
+// stopped while operations are still queued behind a blocked worker; then a second group of the
+// same kind is built with a store of its own, holding nothing. The second group must answer
+// from its own store: a get of a key the first group handled reports not-found, and an add
+// reaches the store (no duplicate rejection from a cache entry it never made).
+func stopBacklogCase(k *engine.Case) {
+	r := k.R
+	workers := 1 + r.Intn(4)
+	lru := r.Intn(3) == 0
+	mk := func() *mux.WorkerGrp {
+		opts := []mux.Option{mux.WithSize(workers), mux.WithDeep(64)}
+		if lru {
+			return mux.NewWorkGrpWithLRU(8, opts...)
+		}
+		return mux.NewWorkGrpWithMapCache(opts...)
+	}
+	keys, _ := keyPool(r)
+	k.Logf("two groups of %d workers one after the other (LRU cache: %v), keys %v", workers, lru, keys)
+	k.Nontrivial()
+	d := engine.NewDriver(Q, k)
+	g1, st1 := mk(), newStore()
+	g1.Start()
+	st1.mu.Lock()
+	st1.gate = make(chan struct{})
+	st1.gateCb = "upsert"
+	st1.mu.Unlock()
+	up := func(g *mux.WorkerGrp, st *store, key mux.Hashed2Int, id int) opRes {
+		v, err := g.DoUpsertThenRenewInCache(context.Background(), st.upsert, key, datum{key: keyStr(key), k: key, v: id})
+		return opRes{v, err}
+	}
+	gateOp := d.Spawn("gate-op", func() any { return up(g1, st1, keys[0], 100) })
+	if !d.Quiesce() {
+		return
+	}
+	if gateOp.Done() {
+		k.Fail("operation-stuck", "the gate operation did not reach the store's upsert callback")
+		return
+	}
+	var queued []*engine.Op
+	for i, n := 0, 2+r.Intn(6); i < n; i++ {
+		key, id := keys[r.Intn(len(keys))], 101+i
+		queued = append(queued, d.Spawn(fmt.Sprintf("queued#%d", id), func() any { return up(g1, st1, key, id) }))
+		if !d.Quiesce() {
+			return
+		}
+	}
+	// stop with the backlog in place, then let the blocked worker go on
+	d.Spawn("Stop (first group)", func() any { g1.Stop(); return nil })
+	if !d.Quiesce() {
+		return
+	}
+	st1.mu.Lock()
+	close(st1.gate)
+	st1.gate = nil
+	st1.mu.Unlock()
+	ws := d.Spawn("WaitStop (first group)", func() any { g1.WaitStop(context.Background()); return nil })
+	if !d.Quiesce() {
+		return
+	}
+	if !ws.Done() || !gateOp.Done() {
+		k.Fail("workers-not-terminated", "first group: after Stop with a backlog and the blocked callback released, WaitStop returned=%v, gate operation returned=%v: %v", ws.Done(), gateOp.Done(), Q.Describe())
+		return
+	}
+	for _, q := range queued {
+		if !q.Done() {
+			k.Fail("operation-stuck", "first group: an operation queued before Stop never returned: %v", Q.Describe())
+			return
+		}
+	}
+	k.Count("stop_backlog_first_groups", 1)
+	// the second group, with nothing in its store
+	g2, st2 := mk(), newStore()
+	g2.Start()
+	defer func() {
+		sp := d.Spawn("stop (second group)", func() any { g2.Stop(); g2.WaitStop(context.Background()); return nil })
+		d.Quiesce()
+		_ = sp
+	}()
+	for _, key := range keys {
+		key := key
+		op, ok := call(d, "get", func() any { v, err := g2.DoGet(context.Background(), st2.load, key); return opRes{v, err} })
+		if !ok {
+			k.Fail("operation-stuck", "second group: DoGet(%v) never returned", key)
+			return
+		}
+		k.Evals(1)
+		if res := op.Result().(opRes); res.err == nil {
+			k.Fail("stale-cache-from-other-group", "second group (fresh, its store is empty): DoGet(%v) returned %v; the first group had handled that key before it was stopped", key, res.v)
+			return
+		}
+	}
+	for i, key := range keys {
+		key, id := key, 300+i
+		op, ok := call(d, "add", func() any {
+			v, err := g2.DoAdd(context.Background(), st2.add, key, datum{key: keyStr(key), k: key, v: id})
+			return opRes{v, err}
+		})
+		if !ok {
+			k.Fail("operation-stuck", "second group: DoAdd(%v) never returned", key)
+			return
+		}
+		k.Evals(1)
+		res := op.Result().(opRes)
+		sv, inStore := st2.value(keyStr(key))
+		if res.err != nil || !inStore || res.v != sv {
+			k.Fail("stale-cache-from-other-group", "second group (fresh, its store was empty): DoAdd(%v) returned (%v, %v), its store now holds %v (present=%v)", key, res.v, res.err, sv, inStore)
+			return
+		}
+	}
+	k.Count("stop_backlog_cases_ok", 1)
+}
